@@ -78,6 +78,8 @@ Engine *make_files_engine();
 Engine *make_env_engine();
 Engine *make_sort_engine();
 Engine *engine_by_name(const std::string &n);
+/* a seeded synthetic TZif image (eng_zone.cc) */
+std::string synth_zone_image(Rng &r, bool many_types = false);
 
 /* helpers shared by engines */
 std::vector<std::string> split_lines_keep(const std::string &s);   /* pieces end with \n except maybe the last */
